@@ -38,6 +38,7 @@ type Engine struct {
 	loadErrs       []string
 	axiomTerms     []axiomTerm
 	guardIdx       map[string]*guardDecl
+	immutableNote  []string
 	ownContracts   map[string]*Contract // implementer refinements as written (before merging with the interface contract)
 	guardByField   map[string]*guardDecl
 }
@@ -234,6 +235,15 @@ func (e *Engine) addSpecFile(sf *SpecFile, pkg *types.Package) {
 		e.ghostFields[g.Name] = g
 	}
 	e.guards = append(e.guards, sf.Guards...)
+	for _, im := range sf.Immutable {
+		// "Type.field" in the file's package
+		name := im
+		if pkg != nil && !strings.Contains(strings.SplitN(im, ".", 2)[0], "/") && strings.Count(im, ".") == 1 {
+			name = pkg.Name() + "." + im
+		}
+		immutableFields[name] = true
+		e.immutableNote = append(e.immutableNote, name)
+	}
 	for k, v := range sf.Consts {
 		e.consts[k] = v
 	}
